@@ -20,7 +20,7 @@ from typing import Any, Dict, List, Optional, Tuple
 
 from ..cfg import cfg_of
 from ..consteval import ConstEval
-from ..flow import Sym, fpaths, attr_effects
+from ..flow import Sym, fpaths, attr_effects, allfacts
 from ..model import FuncInfo, attr_chain, norm, walk_no_nested
 from ..report import Checker
 
@@ -42,7 +42,7 @@ def chunk_decoder_checks(ch: Checker, r_carry: str, r_split: str, r_skip: str) -
         if p.exit_kind != 'return':
             continue
         sym = Sym(p)
-        f = dict(p.facts())
+        f = allfacts(p)
         if f.get(W_SIZE) is True:
             n_size += 1
             # carry-in: the line finder sees self.chunk + raw
@@ -88,26 +88,33 @@ def chunk_decoder_checks(ch: Checker, r_carry: str, r_split: str, r_skip: str) -
                              % norm(node)[:70], p.describe(20))
             elif upt != 'self.size-len(self.chunk)' or v.slice.lower is not None:  # type: ignore[attr-defined]
                 bad_split = ('the amount taken for the current chunk is %s, not what is still missing (self.size - len(self.chunk))' % (norm(up) if up is not None else 'unbounded'), p.describe(20))
-            # remainder: raw rebinding right after with the same bound
+            # remainder: the piece (the parameter, or a local alias of it) is advanced right after, by the same bound
+            def _root(e: ast.AST) -> ast.AST:
+                while isinstance(e, ast.Subscript) and isinstance(e.slice, ast.Slice):
+                    e = e.value
+                return e
             rem = None
             for j, st in p.stmts():
-                if j <= i and not (j == i):
+                if j <= i:
                     continue
                 tg = None
                 if isinstance(st, ast.Assign):
-                    if isinstance(st.targets[0], ast.Name) and st.targets[0].id == raw and j > i:
-                        tg = st.value
-                    elif isinstance(st.targets[0], ast.Tuple) and isinstance(st.value, ast.Tuple):
-                        for te, ve in zip(st.targets[0].elts, st.value.elts):
-                            if isinstance(te, ast.Name) and te.id == raw:
-                                tg = ve
+                    pairs = [(st.targets[0], st.value)]
+                    if isinstance(st.targets[0], ast.Tuple) and isinstance(st.value, ast.Tuple) and len(st.targets[0].elts) == len(st.value.elts):
+                        pairs = list(zip(st.targets[0].elts, st.value.elts))
+                    for te, ve in pairs:
+                        if isinstance(te, ast.Name) and isinstance(ve, ast.Subscript) and isinstance(ve.slice, ast.Slice):
+                            r0 = _root(sym.value(ve.value, j))
+                            if isinstance(r0, ast.Name) and r0.id == raw:
+                                # peel what the piece already was before this statement: only this statement's own slice counts
+                                tg = ast.Subscript(value=ast.Name(id=raw, ctx=ast.Load()), slice=sym.value(ve.slice, j), ctx=ast.Load())
                 if tg is not None:
                     rem = (j, tg)
                     break
             if rem is None:
                 bad_split = ('after taking chunk data the piece is not advanced', p.describe(20))
             else:
-                rv = Sym(p).value(rem[1], rem[0])
+                rv = rem[1]
                 lo = rv.slice.lower if isinstance(rv, ast.Subscript) and isinstance(rv.slice, ast.Slice) else None
                 if lo is None or norm(lo).replace(' ', '') != upt or rv.slice.upper is not None:  # type: ignore[union-attr]
                     bad_split = ('consumed prefix ends at %s but the remainder starts at %s: bytes are dropped or duplicated at the split point' % (norm(up) if up is not None else '?', norm(lo) if lo is not None else '?'), p.describe(20))
@@ -122,7 +129,7 @@ def chunk_decoder_checks(ch: Checker, r_carry: str, r_split: str, r_skip: str) -
                         if isinstance(k, int) and k > 0:
                             # fixed-width skip of k bytes
                             X = norm(st.targets[0])
-                            facts = dict(p.facts(j))
+                            facts = allfacts(p, j)
                             present = any(v is True and kf.replace(' ', '') in ('%s.startswith(CRLF)' % X, 'len(%s)>=%d' % (X, k), 'len(%s)>=len(CRLF)' % X, '%s[:%d]==CRLF' % (X, k), '%s[:len(CRLF)]==CRLF' % X)
                                           for kf, v in facts.items())
                             skipped = skipped or present
@@ -193,7 +200,7 @@ def run(ch: Checker) -> None:
             bad2 = ('parse() can return without storing the unconsumed remainder in self.buffer (last statement: %s)' % norm(st)[:60], p.describe(20))
         else:
             v = norm(sym.value(st.value, last[0]))
-            fd = dict(p.facts())
+            fd = allfacts(p)
             empty_fact = [val for k, val in fd.items() if k.endswith("== b''") and 'raw' in k or k.replace(' ', '') in ("%s==b''" % raw,)]
             if v == 'None':
                 if not any(val is True for val in empty_fact):
@@ -220,7 +227,7 @@ def run(ch: Checker) -> None:
         for p in fpaths(gg):
             if p.exit_kind != 'return':
                 continue
-            fd = dict(p.facts())
+            fd = allfacts(p)
             if fd.get('len(parts) == 1') is True:
                 # first loop iteration without CRLF: must return (False, <input unchanged>)
                 sym = Sym(p)
@@ -244,7 +251,7 @@ def run(ch: Checker) -> None:
     for p in fpaths(gb):
         if p.exit_kind != 'return':
             continue
-        fd = dict(p.facts())
+        fd = allfacts(p)
         if fd.get('self._is_chunked_encoded') is not False or fd.get('self._content_expected') is not True:
             continue
         n3 += 1
